@@ -448,8 +448,9 @@ pub mod commit_overlay {
 
 		pub fn clean_overlay(&mut self, overlay: &mut BTreeCommitOverlay, record_id: u64) {
 			use std::collections::btree_map::Entry;
-			for change in self.changes.drain(..) {
-				let key = change.into_key();
+			// The changes must stay: a deferred commit is cleaned under its old id and then re-queued.
+			for change in self.changes.iter() {
+				let key = change.key().clone();
 				if let Entry::Occupied(e) = overlay.entry(key) {
 					if e.get().0 == record_id {
 						e.remove_entry();
